@@ -660,7 +660,8 @@ fn random_cones(rng: &mut Rng, fam: &str, budget: usize) -> Vec<SupportedConeT<f
         let c = match *rng.choose(kinds) {
             "nn" => NonnegativeConeT(1 + rng.below(4)),
             "zero" => ZeroConeT(1 + rng.below(2)),
-            "soc" => SecondOrderConeT(2 + rng.below(3)),
+            // dimensions > 4 use the sparse KKT expansion (SOC_NO_EXPANSION_MAX_SIZE = 4)
+            "soc" => SecondOrderConeT(*rng.choose(&[2, 3, 4, 5, 6, 8])),
             "exp" => ExponentialConeT(),
             "pow" => PowerConeT(*rng.choose(&[0.5, 0.3, 0.75])),
             "genpow" => GenPowerConeT(vec![0.4, 0.6], 1 + rng.below(2)),
